@@ -9,7 +9,8 @@ def build(run):
     startup.verify_startup(run)
     lifecycle.verify_init_async(run)
     startup.verify_initasync(run)          # InitAsync's regular routine: only when nothing else can initialise the block
-    startup.verify_async_init_addon(run)   # AddonAsyncInit (ValuePoll): init_async returns only when the block has an output
+    startup.verify_async_init_addon(run)
+    startup.verify_valuepoll(run)          # ValuePoll: the acquired value becomes the output (which releases init_async)   # AddonAsyncInit (ValuePoll): init_async returns only when the block has an output
     lifecycle.verify_api(run)
     lifecycle.verify_run_forever(run)      # order of the start-up steps; invariant J at its suspension points
     simulate.verify_simulate(run)          # invariant J at the idle point: every block has an output
